@@ -27,7 +27,9 @@ TraceInit ==
     /\ InitCfg(Traces[tid].cfg)
     /\ TLCSet(tid, 1)
 
-IsEvent(e) == l <= Len(Ev) /\ Ev[l].e = e /\ l' = l + 1 /\ tid' = tid /\ Reached(l + 1)
+\* NB: the register update Reached(l + 1) is conjoined AFTER the disjunction of trace actions in TraceNext:
+\* TLC evaluates conjuncts in order and TLCSet is a side effect, so it must only run for an enabled action.
+IsEvent(e) == l <= Len(Ev) /\ Ev[l].e = e /\ l' = l + 1 /\ tid' = tid
 
 ReqStepAfterAccept(s2) ==
     /\ Sign(s2) = Sign(step)
@@ -66,7 +68,7 @@ TraceFinish ==
     /\ step = Ev[l].fstep
     /\ UNCHANGED vars
 
-TraceNext == TracePredict \/ TraceAccept \/ TraceReject \/ TraceFinish
+TraceNext == (TracePredict \/ TraceAccept \/ TraceReject \/ TraceFinish) /\ Reached(l + 1)
 
 TraceSpec == TraceInit /\ [][TraceNext]_tvars
 
